@@ -701,7 +701,7 @@ theorem v1_patch_text_readback (L : FloatLaws) {N : Nat} (I : IdxLaws N) (hN : N
   have hloop := hrd.loop ((ops.map JText.untagOp).length + 1) [] (Nat.lt_succ_of_le hrd.length_le)
   have s1' : specEq r' b = true := by rw [← specEq_untag_left, hu, specEq_untag_left]; exact s1
   refine ⟨text, _, r', ht1, ?_, hpp, ?_, s1', ?_⟩
-  · simp only [V1.readPatchM, ht2, V1.readPatchDoc, patchOpsOfJson,
+  · simp only [V1.readPatchM, ht2, V1.readPatchDoc, V1.patchOpsOfJson,
       JText.V1T.patchOpsOfJson_go_opDocs, hnorm]
     simpa using hloop
   · rw [v1_equals_eq_specEq hm hl' hb1]; exact s1'
